@@ -691,7 +691,7 @@ pub fn generate(profile_name: &str, seed: u64) -> Program {
         let m = g.rng.range(1, 2);
         for _ in 0..m {
             faults.push(Fault {
-                site: g.rng.below(4) as u8,
+                site: *g.rng.pick(&[0u8, 1, 2, 3, 5]),
                 nth: g.rng.below(12) as u32,
                 errno: *g.rng.pick(&[libc::EEXIST, libc::ENOENT, libc::EBADF, libc::EPERM, libc::ENOMEM]),
             });
